@@ -44,6 +44,7 @@ static struct sLinkLayerParameters llp;
 static int balanced;
 static long frameNo;
 static char loseSet[100000], dupSet[100000];
+static int loseNext[MAXS + 1];
 static int slaveAddr(int i) { return llp.addressLength == 2 ? 0x100 * (i + 1) + 11 + i : 11 + i; }
 
 /* frames written by the station that is currently being stepped */
@@ -56,6 +57,8 @@ static void flush_frames(int who /* -1 master, else slave index */)
     for (int f = 0; f < npend; f++) {
         frameNo++;
         int lost = frameNo < (long) sizeof loseSet && loseSet[frameNo];
+        /* `losenext m|s<i>`: the next variable-length frame carrying user data from the primary function of that station (FC 3, PRM = 1) is lost once */
+        if (!lost && loseNext[who + 1] && pend[f].n > 6 && pend[f].d[0] == 0x68 && (pend[f].d[4] & 0x4f) == 0x43) { lost = 1; loseNext[who + 1] = 0; }
         int dup = frameNo < (long) sizeof dupSet && dupSet[frameNo];
         if (who < 0) printf("tx m %ld ", frameNo); else printf("tx s%d %ld ", who + 1, frameNo);
         puthex(pend[f].d, pend[f].n);
@@ -93,7 +96,7 @@ static void destroy_all(void)
     if (master) { CS101_Master_destroy(master); master = NULL; }
     for (int i = 0; i < MAXS; i++) { if (slaves[i]) { CS101_Slave_destroy(slaves[i]); slaves[i] = NULL; } if (sport[i]) { SerialPort_destroy(sport[i]); sport[i] = NULL; } }
     if (mport) { SerialPort_destroy(mport); mport = NULL; }
-    nslaves = 0; frameNo = 0; npend = 0; memset(loseSet, 0, sizeof loseSet); memset(dupSet, 0, sizeof dupSet);
+    nslaves = 0; frameNo = 0; npend = 0; memset(loseSet, 0, sizeof loseSet); memset(dupSet, 0, sizeof dupSet); memset(loseNext, 0, sizeof loseNext);
 }
 
 static int kv(const char* line, const char* key, int dflt)
@@ -175,6 +178,7 @@ int main(void)
         }
         else if (!strcmp(cmd, "poll") && st >= 0) CS101_Master_pollSingleSlave(master, slaveAddr(st));
         else if (!strcmp(cmd, "flush") && st >= 0) CS101_Slave_flushQueues(slaves[st]);
+        else if (!strcmp(cmd, "losenext")) loseNext[st + 1] = 1;
         else if (!strcmp(cmd, "mtest") && st >= 0) { CS101_Master_useSlaveAddress(master, slaveAddr(st)); CS101_Master_sendLinkLayerTestFunction(master); }
         else if (!strcmp(cmd, "inject")) { int n = unhex(a2, b); Sim_serialFeed(st < 0 ? mport : sport[st], b, n); }
         else printf("? %s", line);
